@@ -33,6 +33,7 @@
 //!               8 rpc::call_and_forward(&cell, .., forward_to_cell, .., None)
 //!               9 rpc::multi_call(&[ActorRef::<T>::from(cell)], .., None)
 //!             (7-9 spawn tasks: on a thread without a runtime context they fall back to 3)
+//!             z / y: ActorRef::call(.., Some(Duration::ZERO)) / rpc::call(&cell, .., Some(1 ns))
 //!             d: through a DerivedActorRef (ActorRef::get_derived, converter closure, TryFrom back-conversion
 //!                of a refused message); r: through ActorRef::<T>::where_is(name) (typed registry lookup with
 //!                is_message_type_of; for a wrong type the lookup itself must refuse) then send_message
@@ -188,7 +189,11 @@ impl<'a> P<'a> {
                     boxfail: flags.contains('b'),
                     gate: flags.contains('g'),
                     hfail: flags.contains('f'),
-                    via: if flags.contains('d') {
+                    via: if flags.contains('z') {
+                        12
+                    } else if flags.contains('y') {
+                        13
+                    } else if flags.contains('d') {
                         10
                     } else if flags.contains('r') {
                         11
@@ -449,6 +454,9 @@ fn send_via<T: Message>(
     let in_rt = tokio::runtime::Handle::try_current().is_ok();
     let via = if via >= 7 && !(in_rt && ctx.fwd.get().is_some()) { 3 } else { via };
     match via {
+        // a call whose deadline is already over / almost over: the request must still be sent
+        12 => call_once(typed.call(|p| with_port(m, p), Some(Duration::ZERO))),
+        13 => call_once(ractor::rpc::call(cell, |p| with_port(m, p), Some(Duration::from_nanos(1)))),
         7 => typed
             .call_and_forward(|p| with_port(m, p), ctx.fwd.get().unwrap(), |_: u64| (), None)
             .map(|_h| ()),
